@@ -353,7 +353,15 @@ func (p *Planner) tryOptimizeJoinDirectionByFilter(node *invertibleTypeJoin, par
 		node.documentMapping,
 	)
 
-	slct := node.childSide.plan.(*selectTopNode).selectNode
+	childTop := node.childSide.plan.(*selectTopNode)
+	if childTop.order != nil || childTop.limit != nil {
+		// The plan of the child side is run again for every parent to collect its children. When the
+		// join is inverted it is also the plan being iterated, and an order or limit node does not
+		// survive being restarted half way, so the join is left as it is.
+		return false, nil
+	}
+
+	slct := childTop.selectNode
 	desc := slct.collection.Version()
 
 	for subFieldName, subFieldInd := range filteredSubFields {
